@@ -365,14 +365,16 @@ func runC01(c *Ctx) {
 func authorizePanel(tok *biscuit.Biscuit, g *scenGen, contents [][]AuthOp) string {
 	var out []string
 	pub, _ := rootKeys()
-	for _, ops := range contents {
+	for idx, ops := range contents {
 		func() {
 			defer func() {
 				if r := recover(); r != nil {
 					out = append(out, "panic "+panicSite(r))
 				}
 			}()
-			a := AuthCase{MaxFacts: 1000, MaxIter: 100}
+			// every other panel entry runs under limits that are not the defaults, so that an
+			// authorizer which lost its options answers differently
+			a := AuthCase{MaxFacts: []int{1000, 4, 1000, 2}[idx%4], MaxIter: []int{100, 100, 1, 100}[idx%4]}
 			az, err := tok.AuthorizerFor(biscuit.WithSingularRootPublicKey(pub), biscuitOpts(a))
 			if err != nil {
 				out = append(out, rejectClass(err))
